@@ -104,7 +104,7 @@ def perturbations(ctx, n):
         ctx.case(cfg)
         for _ in range(40):
             v6 = rng.random() < 0.5
-            e = gen.endp(rng, cfg, v6)
+            e = gen.endp(rng, cfg, v6, own_src=0.03)
             sp, dp = gen.rnd_port(rng), gen.rnd_port(rng)
             c0 = cookie_of(ctx, e, sp, dp)
             if c0 is None:
@@ -136,7 +136,7 @@ def perturbations(ctx, n):
                         ("sport", e, sp ^ (1 << rng.randrange(16)), dp),
                         ("dport", e, sp, dp ^ (1 << rng.randrange(16))),
                         ("swap_ports", e, dp, sp) if sp != dp else ("sport", e, (sp + 1) & 0xFFFF, dp),
-                        ("swap_addrs", pkt.Endp(e.cmac, e.smac, e.sip, e.cip), sp, dp)]
+                        ("swap_addrs", pkt.Endp(e.cmac, e.smac, e.sip, e.cip), sp, dp) if e.cip != e.sip else ("sport", e, (sp + 2) & 0xFFFF, dp)]
             if not v6:
                 m = lambda a: b"\0" * 10 + b"\xff\xff" + a
                 c = lambda a: b"\0" * 12 + a
@@ -186,7 +186,7 @@ def shard(ctx, budget_s, npert):
         cfg = gen.rnd_config(rng, deny=False, logger="n", level=0)
         ctx.case(cfg, record=False)
         v6 = (n + ctx.shard) % 2 == 1
-        e = gen.endp(rng, cfg, v6)
+        e = gen.endp(rng, cfg, v6, own_src=0.03)
         sp, dp = gen.rnd_port(rng), gen.rnd_port(rng)
         c1 = grid(ctx, cfg, e, sp, dp, "fresh")
         # validate the flow and feed it data, then the grid must behave identically, with the same cookie
